@@ -5,7 +5,6 @@ package rfc8009
 
 //@ func crypto/rfc8009.EncryptData(key, data, e) (iv, ct, err)
 //@   pure
-//@   trusted_frame returned slices are not tracked as fresh; in-place append into spare capacity cannot be excluded
 //@   requires len(data) > 0
 //@   requires tagof(e) == typeid("crypto.Aes128CtsHmacSha256128") || tagof(e) == typeid("crypto.Aes256CtsHmacSha384192")
 //@   ensures err == nil <==> et_encok(tagof(e), len(key), len(data))
@@ -13,7 +12,6 @@ package rfc8009
 //@   ensures err == nil ==> bytes(ct) == et_E(tagof(e), bytes(key), bytes(data))
 //@ func crypto/rfc8009.DecryptData(key, data, e) (pt, err)
 //@   pure
-//@   trusted_frame returned slices are not tracked as fresh; in-place append into spare capacity cannot be excluded
 //@   requires tagof(e) == typeid("crypto.Aes128CtsHmacSha256128") || tagof(e) == typeid("crypto.Aes256CtsHmacSha384192")
 //@   ensures err == nil <==> et_decok(tagof(e), len(key), len(data))
 //@   ensures err == nil ==> len(pt) == len(data)
@@ -24,7 +22,6 @@ package rfc8009
 //@     && mac_tail(t, c) == simplified_cksum(t, key, usage_const(usage, 0x55), seqcat(seqzeros(16), seqtrunc(c, len(c) - et_hmacbits(t) / 8)))
 //@ func crypto/rfc8009.DecryptMessage(key, ciphertext, usage, e) (pt, err)
 //@   pure
-//@   trusted_frame returned slices are not tracked as fresh; in-place append into spare capacity cannot be excluded
 //@   requires tagof(e) == typeid("crypto.Aes128CtsHmacSha256128") || tagof(e) == typeid("crypto.Aes256CtsHmacSha384192")
 //@   ensures err != nil ==> len(pt) == 0
 //@   ensures err == nil ==> dec_ok_8009(tagof(e), bytes(key), usage, bytes(ciphertext))
@@ -37,17 +34,14 @@ package rfc8009
 //@ func crypto/rfc8009.VerifyIntegrity(key, ct, usage, e) (ok)
 //@   pure
 //@   requires tagof(e) == typeid("crypto.Aes128CtsHmacSha256128") || tagof(e) == typeid("crypto.Aes256CtsHmacSha384192")
-//@   trusted_frame returned slices are not tracked as fresh; in-place append into spare capacity cannot be excluded
 //@   ensures ok ==> len(ct) >= et_hmacbits(tagof(e)) / 8 && mac_tail(tagof(e), bytes(ct)) == simplified_cksum(tagof(e), bytes(key), usage_const(usage, 0x55), seqcat(seqzeros(16), seqtrunc(bytes(ct), len(ct) - et_hmacbits(tagof(e)) / 8)))
 //@ func crypto/rfc8009.KDF_HMAC_SHA2(protocolKey, label, context, kl, e) (r)
 //@   pure
-//@   trusted_frame returned slices are not tracked as fresh; in-place append into spare capacity cannot be excluded
 //@   requires kl >= 0 && kl / 8 <= hashsize(et_hashfn(tagof(e))) && kl < 4294967296
 //@   ensures len(r) == kl / 8
 //@   ensures bytes(r) == kdf_hmac_sha2(et_hashfn(tagof(e)), bytes(protocolKey), bytes(label), bytes(context), kl)
 //@ func crypto/rfc8009.DeriveKey(protocolKey, label, e) (k)
 //@   pure
-//@   trusted_frame returned slices are not tracked as fresh; in-place append into spare capacity cannot be excluded
 //@   requires len(label) > 0
 //@   requires tagof(e) == typeid("crypto.Aes128CtsHmacSha256128") || tagof(e) == typeid("crypto.Aes256CtsHmacSha384192")
 //@   ensures bytes(k) == et_dk(tagof(e), bytes(protocolKey), bytes(label))
@@ -55,7 +49,6 @@ package rfc8009
 //@   loop 1 invariant forall c int :: 0 <= c && c <= rangeindex ==> label[c] == kerblabel[c]
 //@ func crypto/rfc8009.DeriveRandom(protocolKey, usage, e) (r, err)
 //@   pure
-//@   trusted_frame returned slices are not tracked as fresh; in-place append into spare capacity cannot be excluded
 //@   requires et_known(tagof(e))
 // RFC 8009 4 (property C08): base-key = KDF-HMAC-SHA2(random-to-key(PBKDF2-HMAC-SHA2(passphrase, saltp, iterations,
 // keylength)), "kerberos", keylength) with saltp = enctype-name | 0x00 | salt.
@@ -67,17 +60,14 @@ package rfc8009
 //@   ensures bytes(r) == seqcat(seqcat(bytes(ename), seqbyte(0)), bytes(salt))
 //@ func crypto/rfc8009.StringToPBKDF2(secret, salt, iterations, e) (r)
 //@   pure
-//@   trusted_frame returned slices are not tracked as fresh
 //@   requires tagof(e) == typeid("crypto.Aes128CtsHmacSha256128") || tagof(e) == typeid("crypto.Aes256CtsHmacSha384192")
 //@   ensures bytes(r) == pbkdf2(et_hashfn(tagof(e)), bytes(secret), bytes(salt), iterations, et_protokeybytes(tagof(e)))
 //@ func crypto/rfc8009.StringToKey(secret, salt, s2kparams, e) (k, err)
 //@   pure
-//@   trusted_frame returned slices are not tracked as fresh; in-place append into spare capacity cannot be excluded
 //@   requires tagof(e) == typeid("crypto.Aes128CtsHmacSha256128") || tagof(e) == typeid("crypto.Aes256CtsHmacSha384192")
 //@   ensures err == nil ==> bytes(k) == s2k_8009(tagof(e), bytes(secret), bytes(salt), iters_8009(s2kparams))
 //@ func crypto/rfc8009.StringToKeyIter(secret, salt, iterations, e) (k, err)
 //@   pure
-//@   trusted_frame returned slices are not tracked as fresh; in-place append into spare capacity cannot be excluded
 //@   requires tagof(e) == typeid("crypto.Aes128CtsHmacSha256128") || tagof(e) == typeid("crypto.Aes256CtsHmacSha384192")
 //@   ensures err == nil ==> bytes(k) == s2k_8009(tagof(e), bytes(secret), bytes(salt), iterations)
 //@ func crypto/rfc8009.GetIntegityHash(iv, c, key, usage, e) (h, err)
